@@ -311,6 +311,7 @@ def member_call(em, n, cnode, obj, isarrow, args):
             if name in ('front', 'back'): return '(*%s_%s(%s))' % (c, name, objp)
             if name == 'fill': return '%s_fill(%s, %s)' % (c, objp, em.Eval(real[0]))
             return '%s_%s(%s)' % (c, name, objp)
+        if name in ('cbegin', 'cend'): return '%s_%s(%s)' % (c, name[1:], objp)
         em.fail(n, 'std::array::%s not modelled' % name)
     ii = iter_info(em, ot)
     if ii is not None:
@@ -425,6 +426,13 @@ def operator_call(em, n, rd, args):
             return '(*%s_at(%s, %s))' % (c, addr_of(em.E(args[0])), em.Eval(args[1])) if not (t0.name == 'std::vector' and t0.args[0].name == 'bool') \
                 else _bool_at(em, n, c, args)
         if op == 'operator=':
+            items = il_items(em, args[1]) if t0.name == 'std::vector' else None
+            if items is not None:
+                # v = {a, b, ...}: the items are evaluated into a fresh vector first (they may read v), then it replaces v
+                from emit import _stmts_to_commas
+                tmp = em.new_temp(em.ctype(t0))
+                l = em.E(args[0])
+                return '(*(%s %s = %s, %s))' % (_stmts_to_commas(vec_from_items(em, t0, tmp, items)), l, tmp, addr_of(l))
             r = assign_std(em, t0, args[0], args[1])
             if r is not None: return r
             if t0.name == 'std::array':
@@ -506,6 +514,9 @@ def free_call(em, n, rd, args):
         if name == 'max':
             return '(*(%s = %s, %s = %s, (%s < %s) ? &%s : &%s))' % (tmp1, a, tmp2, b, tmp1, tmp2, tmp2, tmp1)
         return '(*(%s = %s, %s = %s, (%s < %s) ? &%s : &%s))' % (tmp1, a, tmp2, b, tmp2, tmp1, tmp2, tmp1)
+    if ts and ts[0].kind == 'ptr' and name in PTR_ALGS:
+        r = ptr_alg(em, n, name, real, ts)
+        if r is not None: return r
     ii = iter_info(em, ts[0]) if ts else None
     if ii is not None:
         kind, et = ii
@@ -573,6 +584,72 @@ def free_call(em, n, rd, args):
     if name in ('sqrt', 'fabs', 'floor', 'ceil') and len(real) == 1:
         return '%s(%s)' % (name, em.Eval(real[0]))
     em.fail(n, 'free function %s/%d (%s) not modelled' % (name, len(real), ', '.join(t.key() for t in ts)))
+
+PTR_ALGS = ('equal', 'fill', 'accumulate', 'inner_product', 'lexicographical_compare', 'max_element', 'min_element', 'transform', 'copy_n')
+
+def ptr_alg(em, n, name, real, ts):
+    """std algorithms over raw pointer ranges (std::array iterators): C models following the standard's definitions"""
+    def cE(i): return em.ctype(_noconst(ts[i].inner))
+    def clos(i, args):
+        rec = em.record_of(ts[i])
+        if rec is None: em.fail(n, 'std::%s: callable is not a closure object' % name)
+        opc = [c for c in rec.get('inner', []) if c.get('kind') == 'CXXMethodDecl' and c.get('name') == 'operator()']
+        if len(opc) != 1: em.fail(n, 'callable without unique operator()')
+        cn = em.request_func(opc[0])
+        ps = em.params_of(opc[0])
+        byref = [em.canon(parse_type(q['type'].get('desugaredQualType') or q['type']['qualType'])).is_ref() for q in ps]
+        # reference parameters receive the address of the element itself (no copy: the closure reads the very object)
+        call = '%s(&p, %s)' % (cn, ', '.join(('(void *)&' + a) if byref[k] else a for k, a in enumerate(args)))
+        return cn, em.ctype(ts[i]), call
+    ev = [em.Eval(a) for a in real]
+    k = len(real)
+    E = cE(0)
+    sig = None
+    if name == 'equal' and k == 3 and ts[2].kind == 'ptr':
+        fn = 'vstd_p_equal_%s_%s' % (sanitize(E), sanitize(cE(2)))
+        f = '_Bool %s(const %s *a, const %s *l, const %s *b) { long n = l - a; _Bool r = 1; for (long i = 0; i < n; i++) if (!(a[i] == b[i])) r = 0; return r; }' % (fn, E, E, cE(2))
+    elif name == 'fill' and k == 3:
+        V = em.ctype(ts[2]); fn = 'vstd_p_fill_%s_%s' % (sanitize(E), sanitize(V))
+        f = 'void %s(%s *a, %s *l, %s v) { long n = l - a; for (long i = 0; i < n; i++) a[i] = v; }' % (fn, E, E, V)
+    elif name == 'accumulate' and k == 3:
+        R = em.ctype(ts[2]); fn = 'vstd_p_accumulate_%s_%s' % (sanitize(E), sanitize(R))
+        f = '%s %s(const %s *a, const %s *l, %s acc) { long n = l - a; for (long i = 0; i < n; i++) acc = acc + a[i]; return acc; }' % (R, fn, E, E, R)
+    elif name == 'accumulate' and k == 4:
+        R = em.ctype(ts[2]); cn, PT, call = clos(3, ['acc', 'a[i]'])
+        fn = 'vstd_p_accumulate_%s_%s' % (sanitize(E), cn)
+        f = '%s %s(const %s *a, const %s *l, %s acc, %s p) { long n = l - a; for (long i = 0; i < n; i++) { acc = %s; } return acc; }' % (R, fn, E, E, R, PT, call)
+    elif name == 'inner_product' and k == 4 and ts[2].kind == 'ptr':
+        R = em.ctype(ts[3]); fn = 'vstd_p_inner_product_%s_%s_%s' % (sanitize(E), sanitize(cE(2)), sanitize(R))
+        f = '%s %s(const %s *a, const %s *l, const %s *b, %s acc) { long n = l - a; for (long i = 0; i < n; i++) acc = acc + a[i] * b[i]; return acc; }' % (R, fn, E, E, cE(2), R)
+    elif name == 'lexicographical_compare' and k == 4:
+        fn = 'vstd_p_lexcmp_%s_%s' % (sanitize(E), sanitize(cE(2)))
+        f = ('_Bool %s(const %s *a, const %s *la, const %s *b, const %s *lb) { long n = la - a, m = lb - b; _Bool decided = 0, r = 0; '
+             'for (long i = 0; i < n; i++) if (!decided) { if (i >= m) { decided = 1; r = 0; } else if (a[i] < b[i]) { decided = 1; r = 1; } else if (b[i] < a[i]) { decided = 1; r = 0; } } '
+             'if (!decided) r = n < m; return r; }') % (fn, E, E, cE(2), cE(2))
+    elif name in ('max_element', 'min_element') and k == 2:
+        fn = 'vstd_p_%s_%s' % (name, sanitize(E))
+        cmp_ = 'a[best] < a[i]' if name == 'max_element' else 'a[i] < a[best]'
+        f = '%s *%s(%s *a, %s *l) { long n = l - a; long best = 0; for (long i = 1; i < n; i++) if (%s) best = i; return n <= 0 ? l : a + best; }' % (E, fn, E, E, cmp_)
+    elif name in ('max_element', 'min_element') and k == 3:
+        xy = ['a[best]', 'a[i]'] if name == 'max_element' else ['a[i]', 'a[best]']
+        cn, PT, call = clos(2, xy)
+        fn = 'vstd_p_%s_%s_%s' % (name, sanitize(E), cn)
+        f = '%s *%s(%s *a, %s *l, %s p) { long n = l - a; long best = 0; for (long i = 1; i < n; i++) { if (%s) best = i; } return n <= 0 ? l : a + best; }' % (E, fn, E, E, PT, call)
+    elif name == 'transform' and k == 4 and ts[2].kind == 'ptr':
+        cn, PT, call = clos(3, ['a[i]'])
+        O = cE(2); fn = 'vstd_p_transform_%s_%s_%s' % (sanitize(E), sanitize(O), cn)
+        f = '%s *%s(const %s *a, const %s *l, %s *o, %s p) { long n = l - a; for (long i = 0; i < n; i++) { o[i] = %s; } return o + n; }' % (O, fn, E, E, O, PT, call)
+    elif name == 'transform' and k == 5 and ts[2].kind == 'ptr' and ts[3].kind == 'ptr':
+        cn, PT, call = clos(4, ['a[i]', 'b[i]'])
+        E2 = cE(2); O = cE(3); fn = 'vstd_p_transform2_%s_%s_%s_%s' % (sanitize(E), sanitize(E2), sanitize(O), cn)
+        f = '%s *%s(const %s *a, const %s *l, const %s *b, %s *o, %s p) { long n = l - a; for (long i = 0; i < n; i++) { o[i] = %s; } return o + n; }' % (O, fn, E, E, E2, O, PT, call)
+    elif name == 'copy_n' and k == 3 and ts[2].kind == 'ptr':
+        O = cE(2); fn = 'vstd_p_copy_n_%s_%s' % (sanitize(E), sanitize(O))
+        f = '%s *%s(const %s *a, long n, %s *o) { for (long i = 0; i < n; i++) o[i] = a[i]; return o + (n > 0 ? n : 0); }' % (O, fn, E, O)
+    else:
+        return None
+    em.vstd_req.setdefault('palg_' + fn, ('palg', f + '\n'))
+    return '%s(%s)' % (fn, ', '.join(ev))
 
 def transform(em, n, real, ts):
     """std::transform(first, last, out, unary_op) where unary_op is a function pointer/reference to an OVM function"""
@@ -664,6 +741,7 @@ def gen_vstd(em):
             elif kind == 'alg': s, p, f = gen_alg(em, info)
             elif kind == 'transform': s, p, f = gen_transform(em, k, info)
             elif kind == 'algp': s, p, f = gen_algp(em, info)
+            elif kind == 'palg': s, p, f = ('', _protos_of(info), info)
             elif kind == 'il': s, p, f = ('', '', '')
             else: raise Cxx2cError('vstd kind ' + kind)
             structs.append((k, s)); protos.append(p); funcs.append(f)
